@@ -176,4 +176,51 @@ def run(seed, tier, driver):
         if got != mo:
             res.disagree('Update.parse(reference encoding)', {'hex': so['hex'], 'asn4': c['asn4'], 'addpath': c['addpath']},
                          got, mo)
+    through_a_session(res, r, tier, todo)
     return res
+
+
+def through_a_session(res, r, tier, todo):
+    """C09's second observation point ("handler.update_received vs handler.on_update_error"): the same reference encodings
+    delivered to a real Established session.  The AS width the session decodes with is the one both OPENs agreed on (the
+    4-octet-AS capability advertised by us - i.e. switched on in the configuration - AND by the peer); a reference UPDATE
+    encoded in that width must reach handler.update_received with exactly the encoded values, a malformed one
+    handler.on_update_error.  Implementation only."""
+    import impl_session as S
+    from gen import session_gen as SG
+    per = 25 if tier == 'quick' else 400
+    base_caps = dict(S.DEFAULT_CFG['caps'])
+    for local4 in (True, False):
+        for peer4 in (True, False):
+            mode = local4 and peer4
+            pick = [(c, so) for c, so in todo if c['asn4'] == mode and not c['addpath'] and len(so['hex']) // 2 + 19 <= 4096]
+            pick = r.sample(pick, min(per, len(pick)))
+            conf = {'caps': dict(base_caps, four_bytes_as=local4)}
+            sim = S.Sim(conf)
+            ras = sim.cfg['remote_as']
+            for ev in ({'k': 'boot'}, {'k': 'connok', 'c': 0},
+                       {'k': 'chunk', 'c': 0, 'hex': SG.frame(1, SG.open_body(ras, 180, caps=SG.std_caps(ras, as4=peer4))).hex()},
+                       {'k': 'chunk', 'c': 0, 'hex': SG.KEEPALIVE.hex()}):
+                o = sim.step(ev)
+            if o['state'] != 'ESTABLISHED':
+                res.disagree('session setup for the reference encodings', {'cfg': conf, 'peer_as4': peer4}, o['state'], 'ESTABLISHED')
+                continue
+            for c, so in pick:
+                body = bytes.fromhex(so['hex'])
+                if not sim.enabled({'k': 'chunk', 'c': 0}):
+                    break
+                o = sim.step({'k': 'chunk', 'c': 0, 'hex': SG.frame(2, body).hex()})
+                exp = so['expect']
+                rep = [x for x in o['outs'] if x[0] == 'handler' and x[1] in ('update', 'update_error')]
+                res.stats.case(('ref-session', so['hex'], local4, peer4), sample=None)
+                res.stats.hit('session_mode_%s' % ('as4' if mode else 'as2'))
+                if exp.get('sub_error') is None:
+                    ok = (len(rep) == 1 and rep[0][1] == 'update' and rep[0][3]['attr'] == exp['attr']
+                          and rep[0][3]['nlri'] == exp['nlri'] and rep[0][3]['withdraw'] == exp['withdraw'])
+                    what = 'a reference UPDATE (%d-octet AS numbers, the width both OPENs agreed on) was not reported to the application with the encoded values' % (4 if mode else 2)
+                else:
+                    ok = len(rep) == 1 and rep[0][1] == 'update_error'
+                    what = 'a malformed reference UPDATE was not reported to the application as an error'
+                if not ok:
+                    res.fail('C09', what, {'case': c, 'hex': so['hex'], 'session': {'local_four_bytes_as': local4, 'peer_capability_65': peer4},
+                                           'reported': rep, 'expected': exp}, key='session-' + ('as4' if mode else 'as2'))
